@@ -101,7 +101,8 @@ def sections_with(text, option):
 
 
 @st.composite
-def config_case(draw, bases=None, generated=True, min_end=None, sampling_focus=False, cells_only=False,
+def config_case(draw, bases=None, generated=True, min_end=None, sampling_focus=False, small_sampling=False,
+                cells_only=False,
                 composites_only=False, max_events=(300, 1500)):
     """A configuration = shipped base + parameter edits (never wiring edits) + simulation seed + event budget."""
     pool = list(bases or SHIPPED)
@@ -160,6 +161,8 @@ def config_case(draw, bases=None, generated=True, min_end=None, sampling_focus=F
     for sec, val in sections_with(text, "sampling_interval"):
         if sampling_focus or (gen and draw(st.booleans())):
             delta = draw(st.one_of(st.sampled_from([0.3, 0.1, 0.25, 0.7, 1.0, 0.56789]), st.floats(1e-2, 2.0)))
+            if small_sampling:
+                delta = round(draw(st.floats(0.003, 0.05)), 5)
             edits.append((sec, "sampling_interval", repr(delta)))
             if sampling_focus and draw(st.booleans()):
                 edits.append((sec, "first_event_time_zero", "True"))
